@@ -135,6 +135,10 @@ WrongFamilyTrait(fam, D) ==
   \/ (fam # "any" /\ "IntoIterator" \in D)
   \/ (fam = "any" /\ "JsonSchema" \in D)
 
+\* a lifetime among the generic parameters (they are rendered as written: "'a", "T: Ord", ...)
+LifetimeParams == {"'a", "'b"}
+HasLifetimeParam(src) == \E i \in DOMAIN src.tparams : src.tparams[i] \in LifetimeParams
+
 ArbUnsupported(fam, san, val, validated) ==
   \/ (fam = "any" /\ validated)
   \/ (validated /\ ValShape(fam, val) = "custom")
@@ -177,7 +181,8 @@ Class(src) ==
         \/ (HasBlock(src, "default") /\ "Default" \notin D)
         \/ Cardinality(D) # Len(AllDer(src))                         \* a trait listed twice
         \/ (HasBlock(src, "const_fn") /\ fam \in {"string", "any"})
-        \/ (HasBlock(src, "new_unchecked") /\ src.tparams # <<>>)
+        \/ ("Arbitrary" \in D /\ HasLifetimeParam(src))             \* a borrowing inner type ties the Arbitrary lifetime to its own
+        \/ ("IntoIterator" \in D /\ HasLifetimeParam(src))          \* (the catalogue's borrowing inner type Cow<[_]> is not iterable by reference)
         \/ Repeated(src)                                             \* C02 decides repeated blocks, not C08
         \/ src.outer = "doc"
   IN IF Repeated(src) THEN "dontcare"      \* repeated blocks are C02's subject (either rejected or all enforced), not C08's
